@@ -12,7 +12,7 @@ EXPLANATION = (
     "(NonZeroU32::new..ok_or) and FromStr (parse::<NonZeroU32>); the hello reader rejects missing / duplicate session-id or "
     "capabilities. C12/R4 (ORIGIN/OKDOM): Context::new in Session::new receives server_hello.session_id(), the negotiated version, "
     "client_hello.capabilities(), server_hello.capabilities() in that order, and Ok(Session) is reached only through the success "
-    "edges of the joined hello exchange and of the negotiation. Not decided: 'iff well-formed' in full (C13/C14), exchange orderings."
+    "edges of the joined hello exchange and of the negotiation. C12/R5: the future sending the client hello and the future receiving the server hello are polled by one and the same suspension point (joined), so neither order of the simultaneous exchange can block the other. Not decided: 'iff well-formed' in full (C13/C14); try_join!'s polling fairness (trusted)."
 )
 
 
@@ -25,6 +25,7 @@ def run(ctx):
     r2_highest(chk, fx)
     r3_session_id(chk, fx)
     r4_context(chk, fx)
+    r5_simultaneous(chk, fx)
 
 
 def r1_advertised(chk, fx):
@@ -207,3 +208,37 @@ def r4_context(chk, fx):
         s2 = X.ntext(T.user_body(tb)).strip("{}")
         chk.instance("C12/R4", "Context::%s() returns self.%s" % (acc, acc), tb["def"], loc_of(tb.get("sp")), holds=s2 == "self." + acc,
                      key="C12/R4 Context accessor %s" % acc)
+
+
+def r5_simultaneous(chk, fx):
+    """The hello exchange is *simultaneous* (RFC 6241 §8.1: both peers send their hello on connecting, neither waits for the
+    other).  Structural necessary condition: the future that sends the client hello and the future that receives the server
+    hello are driven by one and the same suspension point — if the send is awaited to completion before the receive is first
+    polled, a peer that writes its own hello first over a transport with a small window deadlocks against us."""
+    b = fx.user_coroutine("netconf::session::Session::<T>::new")
+    send = b.calls_to("ClientMsg::send", user_only=True)
+    recv = b.calls_to("ServerMsg::recv", user_only=True)
+    if len(send) != 1 or len(recv) != 1:
+        raise F.AnchorLost("Session::new: hello send/recv call sites")
+    aps = b.await_points()
+
+    def awaited_at(call):
+        taint = b.forward_taint({call.dest["l"]})
+        out = set()
+        for ap in aps:
+            p = ap["poll"]
+            if p is not None and F.op_base(p.args[0]) in taint:
+                out.add(ap["yield"])
+        return out
+
+    a_s, a_r = awaited_at(send[0]), awaited_at(recv[0])
+    ok = bool(a_s) and a_s == a_r
+    chk.instance("C12/R5", "hello send and hello receive are driven by the same suspension point(s) (send awaited at bb%s, receive at bb%s)" % (
+        sorted(a_s), sorted(a_r)), b.name, send[0].loc(), holds=ok, key="C12/R5 Session::new hello-exchange-not-joined",
+        detail=None if ok else "the client hello is sent to completion before the server hello is first polled (or vice versa): "
+        "with a peer that also writes first over a small transport window both sides block in write")
+    # and no suspension point separates the creation of the two futures
+    between = [ap["yield"] for ap in aps if (b.dominates(send[0].bb, ap["yield"]) and b.dominates(ap["yield"], recv[0].bb))
+               or (b.dominates(recv[0].bb, ap["yield"]) and b.dominates(ap["yield"], send[0].bb))]
+    chk.instance("C12/R5", "no await separates creating the send future and the receive future", b.name, recv[0].loc(), holds=not between,
+                 key="C12/R5 Session::new await-between-send-and-recv")
